@@ -295,8 +295,12 @@ def _r(x, alpha, eps):
 @njit
 def _find_root_by_bisection(a, b, alpha, eps, tol=1e-8):
     # find root of function func in interval [a, b] by bisection."""
+    c = (a + b) / 2.
     while b - a > tol:
         c = (a + b) / 2.
+        if c == a or c == b:
+            # a and b are adjacent floats: the interval cannot shrink below tol
+            break
         if _r(a, alpha, eps) * _r(c, alpha, eps) < 0:
             b = c
         else:
